@@ -515,7 +515,8 @@ int main(int argc, char **argv) {
               << " live=";
     if (CFG_CAT == 0) std::cout << "-";
     else std::cout << liveCount();
-    std::cout << " # oracle=" << oracle << " faults=" << faultsStr() << "\n";
+    std::cout << " # oracle=" << oracle << " faults=" << faultsStr() << " ev=" << G().ev.cc << "," << G().ev.mc << ","
+              << G().ev.ca << "," << G().ev.ma << "," << G().ev.dt << "," << G().ev.vi << "," << G().ev.ic << "\n";
     G().faults.clear();
     ++n;
   }
